@@ -344,7 +344,10 @@ func (evpool *Pool) markEvidenceAsCommitted(evidence types.EvidenceList) {
 			continue
 		}
 
-		if err := evpool.evidenceStore.Set(key, evBytes); err != nil {
+		// Synced: the state that records this block is saved right after Update returns and is
+		// never replayed once it is durable, so a marker lost in a crash would stay lost and
+		// the evidence could be proposed and accepted a second time.
+		if err := evpool.evidenceStore.SetSync(key, evBytes); err != nil {
 			evpool.logger.Error("Unable to save committed evidence", "err", err, "key(height/hash)", key)
 		}
 	}
